@@ -115,7 +115,9 @@ def op? (cmd : String) (args : List Sexp) : Option Op :=
       | .list [.atom "mpp", m] => do some (some (← u64? m))
       | _ => none)
     some (.meltQuote inv ((← unit.asStr?) == "sat") mpp)
-  | "mint.melt", [q, ps, script] => do some (.melt (← int? q) (← listOf? proof? ps) (← listOf? ans? script))
+  | "mint.melt", [q, ps, script] => do some (.melt (← int? q) (← listOf? proof? ps) (← listOf? ans? script) false)
+  | "mint.melt", [q, ps, script, lnFail] => do
+    some (.melt (← int? q) (← listOf? proof? ps) (← listOf? ans? script) (← lnFail.asBool?))
   | "mint.meltstate", [q, script] => do some (.meltState (← int? q) (← listOf? ans? script))
   | "mint.checkstate", [ys, script] => do some (.checkState (← listOf? yref? ys) (← listOf? ans? script))
   | "mint.restore", [bs] => do some (.restore (← listOf? Sexp.asNat? bs))
